@@ -60,6 +60,9 @@ def ulp(x):
 
 
 # ---------------------------------------------------------------- gamma callbacks
+_SHAPE = [0]
+
+
 def gamma_callable(tag, arg):
     if tag == "D":
         return None
@@ -68,7 +71,30 @@ def gamma_callable(tag, arg):
     if tag == "I":
         return lambda c, k, mu, s2, team, rank: 1 / k
     if tag == "R":
-        return lambda c, k, mu, s2, team, rank: 1 / (rank + 1)
+        # the same callback in the shapes users write it: a plain function, extra parameters with defaults, the rank taken from *rest,
+        # everything taken from *args, a functools.partial, an object with __call__  (the library passes six positional arguments)
+        _SHAPE[0] += 1
+        k_ = _SHAPE[0] % 6
+        if k_ == 0:
+            return lambda c, k, mu, s2, team, rank: 1 / (rank + 1)
+        if k_ == 1:
+            def g1(c, k, mu, sigma_squared, team, rank, scale=1.0, *more, **opts):
+                return scale / (rank + 1)
+            return g1
+        if k_ == 2:
+            def g2(c, k, mu, sigma_squared, team, *extra):
+                return 1 / (extra[0] + 1)
+            return g2
+        if k_ == 3:
+            return lambda *a: 1 / (a[5] + 1)
+        if k_ == 4:
+            import functools
+            return functools.partial(lambda one, c, k, mu, s2, team, rank: one / (rank + 1), 1)
+
+        class G5:
+            def __call__(self, c, k, mu, s2, team, rank):
+                return 1 / (rank + 1)
+        return G5()
     if tag == "Q":
         return lambda c, k, mu, s2, team, rank: s2 / (c * c)
     if tag == "Z":
